@@ -186,6 +186,9 @@ let id_back = INextBack ((fun p -> p), (fun i -> i))
 (* under take(N) the adaptor's own budget is consumed call by call whether or not the
    inner iterator is exhausted, so the cap must also cover N *)
 let cur_cap : int ref = ref 0
+(* end [panic]: the caller's loop body panics with the iterator alive; the iterator is
+   dropped while unwinding (the model's EDrop) and the harness catches the panic *)
+let cur_panic : bool ref = ref false
 let small_k k = match int_of_string_opt k with
   | Some k when k >= 0 && k <= !cur_cap -> k
   | _ -> !cur_cap
@@ -207,6 +210,7 @@ let script toks = match toks with
         | "count" | "last" | "collect" ->
             cur_post := Some (e, !cur_size + 1);
             (rep (!cur_size + 1) id_next, "drop")
+        | "panic" -> cur_post := None; cur_panic := true; ([], "drop")
         | _ -> cur_post := None; ([], e) in
       cur_mask := List.concat (List.map snd ex) @ rep (List.length tail) false;
       (adaptor_of a, List.concat (List.map fst ex) @ tail, iend_of e')
@@ -378,6 +382,7 @@ let () =
              (* the register named by the op (second token, after a fuse prefix) *)
              let rtoks = (match toks with "fuse" :: _ :: rest -> rest | _ -> toks) in
              cur_post := None;
+             cur_panic := false;
              cur_size := (match rtoks with
                | _ :: r :: _ -> (match int_of_string_opt r with
                    | Some r -> (match List.nth_opt !m r with
@@ -388,6 +393,7 @@ let () =
              let o = parse_op toks in
              let (m', out) = tstep !mode !m o in
              m := m';
+             let out = (match out with OutScript _ when !cur_panic -> OutUnwound | o -> o) in
              pr_line out (int_of_nat (total_ticks m')) m';
              if is_fault out then dead := true
            end);
